@@ -24,7 +24,7 @@ LEVEL = "exploration"
 CASES = {"quick": 6000, "thorough": 240000}
 RULE = ("seeded random Vectors, DataFrames, GeoJSON frames (incl. null geometries) and ListOfDicts over all dtypes (incl. float32, uint64, bytes, "
         "timedelta, complex, object cells holding dicts/lists/multi-line strings), NaN/+-inf/huge/tiny floats in one column, wide / combining / "
-        "non-BMP characters, 0-row and 0-column shapes x max_rows>=1, max_width>=5, truncate_width>=1, max_elements, max_items>=0, PRINT_* "
+        "non-BMP characters, 0-row and 0-column shapes x max_rows>=1, max_width>=1, truncate_width>=1, max_elements, max_items>=0, PRINT_* "
         "settings and COLUMNS; non-trivial = object has >= 1 element/row/item; distinct = distinct (class, dtypes, shape class, option set) signatures")
 ASSUMPTIONS = [
     "the equal-width clause is skipped for a block containing a character for which wcwidth is undefined (control characters)",
@@ -58,6 +58,7 @@ def generate(rng, tier):
     if rng.random() < 0.2: settings["PRINT_THOUSAND_SEPARATOR"] = rng.choice([",", " ", "_", "'", ".", "\u2009"])
     if rng.random() < 0.2: settings["PRINT_TRUNCATE_WIDTH"] = rng.choice([1, 5, 100])
     if rng.random() < 0.2: settings["PRINT_MAX_ROWS"] = rng.choice([1, 3])
+    if rng.random() < 0.15: settings["PRINT_MAX_WIDTH"] = rng.choice([1, 20, 200])
     if rng.random() < 0.2: settings["PRINT_MAX_ELEMENTS"] = rng.choice([0, 2, 5])
     if rng.random() < 0.2: settings["PRINT_MAX_ITEMS"] = rng.choice([0, 1, 2])
     case = {"cls": cls, "settings": settings, "columns_env": rng.choice([None, None, "20", "40", "200"])}
@@ -73,7 +74,7 @@ def generate(rng, tier):
         case["spec"] = spec
         opts = {}
         if rng.random() < 0.5: opts["max_rows"] = rng.choice([1, 2, 3, 10, 200])
-        if rng.random() < 0.5: opts["max_width"] = rng.choice([5, 10, 30, 60, 300])
+        if rng.random() < 0.5: opts["max_width"] = rng.choice([1, 3, 5, 10, 30, 60, 300])
         if rng.random() < 0.4: opts["truncate_width"] = rng.choice([1, 2, 8, 50])
         case["opts"] = opts
         case["grouped"] = rng.random() < 0.2
